@@ -2,15 +2,24 @@
 # setup_cmd: build the framework from files on disk only (offline). Full .vo build, no -vos/-vok.
 set -e
 cd "$(dirname "$0")/.."
-python3 tools/translate_tables.py
+python3 - <<'PY'
+import sys
+sys.path.insert(0, "tools")
+from common import *
+rc, msg = run_translator()
+print(msg)
+sys.exit(rc)
+PY
 cd coq
-coq_makefile -f _CoqProject -o Makefile
 make -j16
 cd ..
 python3 - <<'PY'
-import sys, os
+import sys, os, re
 sys.path.insert(0, "tools")
 from common import *
-build_extracted("eval_driver.ml", "eval_driver")
+for f in sorted(os.listdir(EXTRACT)):
+    m = re.fullmatch(r"Extract_(\w+)\.v", f)
+    if m:
+        print("extracted driver:", build_extracted(m.group(1)))
 PY
 echo setup done
